@@ -96,3 +96,26 @@ impl From<BoxError> for SignatureError {
 //@ end
 }
 
+/// the message an error carries, if it carries one of its own (IO / internal errors display the wrapped error)
+pub open spec fn own_message(e: SignatureError) -> Option<Seq<char>> {
+    match e {
+        SignatureError::ExpiredToken(m) => Some(m@), SignatureError::InvalidBodyEncoding(m) => Some(m@), SignatureError::InvalidClientTokenId(m) => Some(m@),
+        SignatureError::InvalidContentType(m) => Some(m@), SignatureError::InvalidRequestMethod(m) => Some(m@), SignatureError::IncompleteSignature(m) => Some(m@),
+        SignatureError::InvalidURIPath(m) => Some(m@), SignatureError::MalformedQueryString(m) => Some(m@), SignatureError::MissingAuthenticationToken(m) => Some(m@),
+        SignatureError::SignatureDoesNotMatch(m) => Some(if m is Some { m->Some_0@ } else { Seq::<char>::empty() }),
+        SignatureError::IO(_) => None, SignatureError::InternalServiceError(_) => None,
+    }
+}
+pub mod err_display_m {
+    use super::*;
+    use std::fmt::Display;
+impl Display for SignatureError {
+//@ fn error.rs impl Display for SignatureError :: fmt
+//@ params f
+//@ props C08 C17
+//@ ret r
+//@ spec
+        ensures own_message(*self) is Some ==> fmt_wrote(fmt_out(*old(f)), fmt_out(*final(f)), own_message(*self)->Some_0, r.is_ok()), //# C17 name=Display_writes_the_message_and_nothing_else
+//@ end
+}
+}
